@@ -187,6 +187,27 @@ try:
             g = kd.KernelDG(kernel, parser, mm, sem, timeout=30)
             kd.KernelDG.INSTRUCTION_THRESHOLD = 50
             out["%%s/%%d" %% (kname, cpu)] = [c16.lcd_obs(g) == ref, g.timed_out]
+            if cpu in (5, 16) and hasattr(os, "sched_setaffinity") and kname != "k9":
+                # the same analysis with the process pinned to two CPUs (taskset, batch job):
+                # the CPU mask is one more environment answer the result must not depend on
+                mask = os.sched_getaffinity(0)
+                try:
+                    if len(mask) > 2:
+                        os.sched_setaffinity(0, set(sorted(mask)[:2]))
+                    pinned = len(mask) > 2
+                except OSError:
+                    pinned = False
+                if pinned:
+                    try:
+                        kd.KernelDG.INSTRUCTION_THRESHOLD = 1
+                        parser, kernel = dgfam.parsed_kernel("x86", texts, via_parse_file=True)
+                        sem.add_semantics(kernel)
+                        g = kd.KernelDG(kernel, parser, mm, sem, timeout=30)
+                        out["%%s/%%d pinned to 2 CPUs" %% (kname, cpu)] = [c16.lcd_obs(g) == ref,
+                                                                        g.timed_out]
+                    finally:
+                        kd.KernelDG.INSTRUCTION_THRESHOLD = 50
+                        os.sched_setaffinity(0, mask)
     print("CONF" + json.dumps(out))
 finally:
     ctx.cleanup()
